@@ -376,6 +376,12 @@ def run(ctx):
                     ctx.prop_fail("cumulative: %d statements with distinct constants are refused (constant pool limit is per chunk)" % n, case)
         else:
             ctx.prop_fail("crash: %s of size %d neither evaluates nor is refused with an explicit limit error" % (name, n), case)
+    # ---- OBLIGATION: the compiler is a disciplined client of the allocator (what alloc_fresh / free_inv / window_sound assume)
+    from . import c01_compile, c01_corpus
+    whole = [p.replace("\\n", "\n") for p, (name, n, want, kind) in zip(progs, meta) if n <= 300]
+    whole += [q if isinstance(q, str) else q[0] for q in c01_corpus.feature_programs(ctx.rng, "quick")]
+    nprog, nbad = c01_compile.discipline(ctx, common, whole, "C10 families and C01 feature programs")
+    ctx.notes.append("register discipline: %d whole programs compiled with the allocator's hook, %d undisciplined" % (nprog, nbad))
     ctx.cov["distinct_nontrivial"] = len(distinct)
     ctx.cov["rule"] = ("(a) random and adversarial op sequences on the real BytecodeBuilder/RegisterAllocator (alloc/free/reserve_registers_for with sizes 0..65537/save/restore) "
                        "and constant pool (add_number/add_string/add_constant incl. 65600 distinct constants), compared op by op with M-RegAlloc; "
